@@ -25,6 +25,10 @@ THEOREMS = {
         "MG.C13.duplicate_post",
         "MG.C13.mkDupGraph_discards_family_grads",
     ],
+    "MG.Proofs.Lemmas.InPlaceRefine": [
+        "MG.C04R.inplace_on_owner_failure_leaves_no_trace",
+        "MG.C04R.mutate_single_fail",
+    ],
 }
 
 GEN = dict(inplace=True, p_inplace=0.25, p_view=0.25, p_fail=0.22, p_const=0.12, n_stmts=10, ro_leaves=True)
@@ -314,7 +318,10 @@ MANIFEST = {
             "validated by correspondence); for any view forest, a successful DuplicatingGraph(base) leaves the base and "
             "every view in the graph without a gradient and gives no tensor one (mkDupGraph_discards_family_grads, by "
             "nested induction over the recursion and the loop over live view children), so the placeholder assertion "
-            "cannot fire half-way through the re-routing any more. The model with failures is run against MyGrad; the "
+            "cannot fire half-way through the re-routing any more. End to end, for the whole _in_place_op of the model on a "
+            "tensor without live views and any operands: if the NumPy-level statement is rejected, the update raises "
+            "that error and leaves every existing tensor exactly as x.null_grad() leaves it, every existing buffer "
+            "unchanged and every op with its old variables (inplace_on_owner_failure_leaves_no_trace). The model with failures is run against MyGrad; the "
             "direct oracle snapshots all tensors around every failing statement, compares the final state and "
             "gradients with the program without the failing statements, and checks that no array stays locked.",
     "note": "Trusted: Lean kernel, standard axioms, correspondence harness. The target's own .grad is nulled before the attempt "
